@@ -1328,6 +1328,14 @@ func ruleR095(c *Ctx) {
 	materialiser := map[ast.Node]bool{}
 	// the materialising method stores the items (a slice of values) and sets a flag to true
 	setsFlag, storesItems := map[ast.Node]*types.Var{}, map[ast.Node]*types.Var{}
+	setsFlagIn := map[ast.Node]bool{}
+	for _, s := range stores {
+		if d := c.EnclosingDecl(s.stmt); d != nil && s.rhs != nil {
+			if tv := s.pkg.TypesInfo.Types[s.rhs]; tv.Value != nil && tv.Value.Kind() == constant.Bool && constant.BoolVal(tv.Value) {
+				setsFlagIn[d] = true
+			}
+		}
+	}
 	for _, s := range stores {
 		d := c.EnclosingDecl(s.stmt)
 		if s.rhs == nil || d == nil {
@@ -1337,7 +1345,7 @@ func ruleR095(c *Ctx) {
 			setsFlag[d] = s.field
 		}
 		if as, ok := s.stmt.(*ast.AssignStmt); ok && isValueSlice(s.field.Type()) && len(as.Lhs) == 1 && ast.Unparen(as.Lhs[0]) == ast.Expr(s.sel) {
-			if se, isSlice := ast.Unparen(s.rhs).(*ast.SliceExpr); !isSlice || nodeStr(c.Fset, se.X) != nodeStr(c.Fset, s.sel) {
+			if _, setsHere := setsFlagIn[d]; setsHere {
 				storesItems[d] = s.field
 			}
 		}
@@ -1366,7 +1374,14 @@ func ruleR095(c *Ctx) {
 				if u, ok := r.(*ast.UnaryExpr); ok && u.Op == token.AND {
 					r = ast.Unparen(u.X)
 				}
-				if _, ok := r.(*ast.CompositeLit); ok && countAssignments(info, s.fn, info.ObjectOf(id)) == 1 {
+				_, isLit := r.(*ast.CompositeLit)
+				if call, ok := r.(*ast.CallExpr); ok && !isLit {
+					// a private constructor that returns a new literal: l := newLazyList(size)
+					if cl, _ := c.ctorLiteral(info, call); cl != nil {
+						isLit = true
+					}
+				}
+				if isLit && countAssignments(info, s.fn, info.ObjectOf(id)) == 1 {
 					c.OK(key, s.stmt.Pos(), "store into a list this function has just created")
 					continue
 				}
@@ -1387,11 +1402,29 @@ func ruleR095(c *Ctx) {
 				c.OK(key, s.stmt.Pos(), "the materialising method fills the cache")
 				continue
 			}
-			if s.rhs != nil {
+			if s.rhs != nil && whole {
+				// l.items = l.items[:n:n], slices.Clip(l.items), or the same on a local copy of the header (items := l.items)
 				r := ast.Unparen(s.rhs)
-				if se, ok := r.(*ast.SliceExpr); ok && se.Low == nil && nodeStr(c.Fset, se.X) == nodeStr(c.Fset, s.sel) {
-					c.OK(key, s.stmt.Pos(), "the cache is re-sliced to itself (capacity trim), the elements stay")
-					continue
+				var src ast.Expr
+				if se, ok := r.(*ast.SliceExpr); ok && se.Low == nil {
+					src = se.X
+				}
+				if call, ok := r.(*ast.CallExpr); ok && len(call.Args) == 1 {
+					if cal := Callee(info, call); cal != nil && cal.Pkg() != nil && cal.Pkg().Path() == "slices" && cal.Name() == "Clip" {
+						src = call.Args[0]
+					}
+				}
+				if src != nil {
+					src = ast.Unparen(src)
+					if id, ok := src.(*ast.Ident); ok {
+						if as, i := definingAssign(info, s.fn, info.ObjectOf(id)); as != nil && len(as.Rhs) == len(as.Lhs) && countAssignments(info, s.fn, info.ObjectOf(id)) == 1 {
+							src = ast.Unparen(as.Rhs[i])
+						}
+					}
+					if nodeStr(c.Fset, src) == nodeStr(c.Fset, s.sel) {
+						c.OK(key, s.stmt.Pos(), "the cache is re-sliced to itself (capacity trim), the elements stay")
+						continue
+					}
 				}
 			}
 			c.Violation(key, s.stmt.Pos(), "the cache field %s of an existing list is overwritten outside the method that materialises the list: the content of a list that other names, evaluations or goroutines hold changes", s.field.Name())
